@@ -49,3 +49,15 @@ def floor_is(q, num, den):
 def ceil_is(r, num, den):
     """r == ceil(num/den) for den > 0"""
     return z3.And(r * den >= num, (r - 1) * den < num)
+
+
+_mo = [0]
+
+
+def multiple_of(x, m):
+    """x is a non-negative multiple of m (m > 0), stated with an explicit witness: exists j >= 0. x == j*m.
+    (z3's mod with a symbolic divisor makes solvers wander; the existential is skolemised when assumed and
+    instantiated by MBQI when proved.)"""
+    _mo[0] += 1
+    j = z3.Int("mult_j%d" % _mo[0])
+    return z3.Exists([j], z3.And(j >= 0, x == j * m))
